@@ -3,6 +3,9 @@ import ParryModel.C03.Model
 import ParryModel.C03.Lemmas
 import ParryModel.C03.Sat
 import ParryModel.C03.Theorems2
+import ParryModel.C03.Theorems3
+import ParryModel.C03.Theorems4
+import ParryModel.C03.Wrap
 /-!
 # C03 property theorems: argument-order and frame independence.
 
@@ -749,5 +752,333 @@ theorem intersectionTestCuboidCuboid2_swap (m : Iso2 K) (he1 he2 : V2 K) (h : Un
   simp [hA, hB]
 
 example : Unit2 (⟨3/5, 4/5, ⟨1, -2⟩⟩ : Iso2 ℚ) := by unfold Unit2; norm_num
+
+open Model.CC in
+/-- **`intersection_test_cuboid_cuboid` (dim3) decides intersection**: under the hypotheses of
+`intersectionTestCuboidCuboid_true_partial` (unit `pos12`, non-negative half-extents, every candidate edge axis exactly
+zero or longer than `f64::EPSILON`) the verdict is `true` **iff** the cuboids share a point — soundness
+(`intersectionTestCuboidCuboid_false_disjoint`) and completeness of the fifteen axes together. -/
+theorem intersectionTestCuboidCuboid_true_iff (m : Iso3 K) (he1 he2 : V3 K) (h : Unit3 m) (hs : LawfulSqrt sq)
+    (h1 : ∀ k, 0 ≤ comp he1 k) (h2 : ∀ l, 0 ≤ comp he2 l)
+    (hgen : ∀ a ∈ @satEdgeAxes K (fieldNum K sq) m,
+      @V3.dot K (fieldNum K sq) a a = 0 ∨ @realEps K (fieldNum K sq) < @V3.norm K (fieldNum K sq) a) :
+    @intersectionTestCuboidCuboid K (fieldNum K sq) m he1 he2 = true ↔ CuboidsMeet sq he1 he2 m := by
+  constructor
+  · exact intersectionTestCuboidCuboid_true_partial sq m he1 he2 h hs h1 h2 hgen
+  · rintro ⟨y, hy, hx⟩
+    by_contra hne
+    have hf : @intersectionTestCuboidCuboid K (fieldNum K sq) m he1 he2 = false := by
+      simpa using hne
+    exact intersectionTestCuboidCuboid_false_disjoint sq m he1 he2 h hf _ y hx hy rfl
+
+example : Unit3 (⟨0, 0, 0, 1, ⟨1, -2, 3⟩⟩ : Iso3 ℚ) := by unfold Unit3; norm_num
+
+/-! ## Part 6 — the remaining mirrored wrappers (composite-shape arms, shape casts, non-linear casts) -/
+
+/-- **Swapped composite-shape wrappers** (`closest_points_`, `contact_`, `distance_`,
+`intersection_test_shape_composite_shape`), for *any* canonical sibling (`*_composite_shape_shape` with the
+dispatcher, shapes and parameter applied): the wrapper evaluated at `pos12⁻¹` is the flipped canonical answer at
+`pos12`, and conversely the canonical function at `pos12⁻¹` is the flipped wrapper at `pos12`. -/
+theorem shapeComposite_swap (fp : Iso3 K → ClosestPoints3 K) (fc : Iso3 K → Option (Contact3 K)) (fd : Iso3 K → K)
+    (fi : Iso3 K → Bool) (pos12 : Iso3 K) (h : Unit3 pos12) :
+    letI := fieldNum K sq
+    (closestPointsShapeComposite fp pos12.inverse = (fp pos12).flipped ∧
+     contactShapeComposite fc pos12.inverse = (fc pos12).map Contact3.flipped ∧
+     distanceShapeComposite fd pos12.inverse = fd pos12 ∧
+     intersectionTestShapeComposite fi pos12.inverse = fi pos12) ∧
+    (fp pos12.inverse = (closestPointsShapeComposite fp pos12).flipped ∧
+     fc pos12.inverse = (contactShapeComposite fc pos12).map Contact3.flipped ∧
+     fd pos12.inverse = distanceShapeComposite fd pos12 ∧
+     fi pos12.inverse = intersectionTestShapeComposite fi pos12) := by
+  refine ⟨?_, ?_, ?_, rfl, rfl⟩
+  · simp only [closestPointsShapeComposite, contactShapeComposite, distanceShapeComposite,
+      intersectionTestShapeComposite, iso3_inverse_inverse sq pos12 h, and_self]
+  · simp only [closestPointsShapeComposite, closestPoints_flipped_flipped]
+  · simp only [contactShapeComposite, Option.map_map]
+    cases fc (@Iso3.inverse K (fieldNum K sq) pos12) <;> rfl
+
+example : Unit3 (⟨0, 0, 3/5, 4/5, ⟨1, -2, 3⟩⟩ : Iso3 ℚ) := by unfold Unit3; norm_num
+
+/-- **Swapped shape-cast wrappers** (`cast_shapes_shape_composite_shape`, `cast_shapes_support_map_halfspace`), for
+any canonical sibling `f`: called with what the swapped order sees (`pos12⁻¹`, `-(pos12⁻¹·vel12)`) the wrapper
+returns the swapped hit of `f(pos12, vel12)`; conversely `f` at the swapped data is the swapped hit of the wrapper. -/
+theorem castShapesSwapped_swap (f : Iso3 K → V3 K → Option (ShapeCastHit3 K)) (pos12 : Iso3 K) (vel12 : V3 K)
+    (h : Unit3 pos12) :
+    letI := fieldNum K sq
+    castShapesSwapped f pos12.inverse (pos12.invRot vel12).neg = (f pos12 vel12).map ShapeCastHit3.swapped ∧
+    f pos12.inverse (pos12.invRot vel12).neg = (castShapesSwapped f pos12 vel12).map ShapeCastHit3.swapped := by
+  constructor
+  · have e : @V3.neg K (fieldNum K sq) (@Iso3.invRot K (fieldNum K sq) (@Iso3.inverse K (fieldNum K sq) pos12)
+        (@V3.neg K (fieldNum K sq) (@Iso3.invRot K (fieldNum K sq) pos12 vel12))) = vel12 := by
+      have e1 : ∀ v : V3 K, @Iso3.invRot K (fieldNum K sq) (@Iso3.inverse K (fieldNum K sq) pos12) v
+          = @Iso3.rot K (fieldNum K sq) pos12 v := by
+        intro v; simp only [Iso3.inverse, Iso3.invRot, Iso3.rot, Iso3.qv, V3.neg, neg_neg]
+      rw [e1, ← invRot_neg, rot_invRot sq pos12 _ h]
+      simp only [V3.neg, neg_neg]
+    simp only [castShapesSwapped, iso3_inverse_inverse sq pos12 h, e]
+  · simp only [castShapesSwapped, Option.map_map]
+    cases f (@Iso3.inverse K (fieldNum K sq) pos12)
+      (@V3.neg K (fieldNum K sq) (@Iso3.invRot K (fieldNum K sq) pos12 vel12)) <;> rfl
+
+example : Unit3 (⟨1/2, -1/2, 1/2, 1/2, ⟨0, 7, 1/3⟩⟩ : Iso3 ℚ) := by unfold Unit3; norm_num
+
+/-- **World-frame swap of `query::cast_shapes` through a swapped wrapper**: if the dispatcher serves the order
+`(2, 1)` by the swapped wrapper of the function `f` that serves `(1, 2)`, then
+`cast_shapes(pos2, vel2, g2, pos1, vel1, g1) = cast_shapes(pos1, vel1, g1, pos2, vel2, g2).swapped()`. -/
+theorem queryCastShapes_swapped (f : Iso3 K → V3 K → Option (ShapeCastHit3 K)) (p1 p2 : Iso3 K) (v1 v2 : V3 K)
+    (h1 : Unit3 p1) (h2 : Unit3 p2) :
+    letI := fieldNum K sq
+    queryCastShapes (castShapesSwapped f) p2 v2 p1 v1 = (queryCastShapes f p1 v1 p2 v2).map ShapeCastHit3.swapped := by
+  rw [queryCastShapes_swap sq _ p1 p2 v1 v2 h1 h2]
+  exact (castShapesSwapped_swap sq f _ _ (unit3_invMul sq p1 p2 h1 h2)).1
+
+example : Unit3 (⟨0, 0, 3/5, 4/5, ⟨1, -2, 3⟩⟩ : Iso3 ℚ) ∧ Unit3 (⟨2/3, 1/3, 2/3, 0, ⟨0, 0, 0⟩⟩ : Iso3 ℚ) := by
+  unfold Unit3; norm_num
+
+/-- **Non-linear casts**: `cast_shapes_nonlinear_shape_composite_shape` exchanges the two motions and swaps the hit;
+it is the mirror of its sibling in both directions, and the free function `query::cast_shapes_nonlinear` inherits the
+symmetry (the motions carry their own world frames: no `pos12`). -/
+theorem castShapesNonlinearSwapped_swap {M : Type} (f : M → M → Option (ShapeCastHit3 K)) (m1 m2 : M) :
+    castShapesNonlinearSwapped f m2 m1 = (f m1 m2).map ShapeCastHit3.swapped ∧
+    f m2 m1 = (castShapesNonlinearSwapped f m1 m2).map ShapeCastHit3.swapped ∧
+    queryCastShapesNonlinear (castShapesNonlinearSwapped f) m2 m1
+      = (queryCastShapesNonlinear f m1 m2).map ShapeCastHit3.swapped := by
+  refine ⟨rfl, ?_, rfl⟩
+  simp only [castShapesNonlinearSwapped, Option.map_map]
+  cases f m2 m1 <;> rfl
+
+/-- the two composite arms of a `DefaultQueryDispatcher` method, in the order of the source:
+`if let Some(c1) = shape1.as_composite_shape() { canonical(c1, shape2) } else if let Some(c2) = … { swapped wrapper }` -/
+def dispatchComposite {α : Type} (flip : α → α) (comp1 comp2 : Bool) (canon12 canon21 : Iso3 K → α) (pos12 : Iso3 K) :
+    Option α :=
+  letI := fieldNum K sq
+  if comp1 then some (canon12 pos12) else if comp2 then some (flip (canon21 pos12.inverse)) else none
+
+/-- **Swap symmetry of the composite dispatch arms.**  `canon12` serves (composite 1, shape 2), `canon21` serves
+(composite 2, shape 1).  With exactly one composite the two argument orders go through the canonical function and
+its swapped wrapper and agree up to `flip` unconditionally; when BOTH shapes are composite both orders take the first
+arm, and the symmetry is exactly the kernel's own (`hk`). -/
+theorem dispatchComposite_swap {α : Type} (flip : α → α) (hflip : ∀ x, flip (flip x) = x) (comp1 comp2 : Bool)
+    (canon12 canon21 : Iso3 K → α) (pos12 : Iso3 K) (h : Unit3 pos12)
+    (hk : comp1 = true → comp2 = true → canon12 pos12 = flip (canon21 (@Iso3.inverse K (fieldNum K sq) pos12))) :
+    dispatchComposite sq flip comp1 comp2 canon12 canon21 pos12
+      = (dispatchComposite sq flip comp2 comp1 canon21 canon12 (@Iso3.inverse K (fieldNum K sq) pos12)).map flip := by
+  unfold dispatchComposite
+  rw [iso3_inverse_inverse sq pos12 h]
+  cases comp1 <;> cases comp2 <;> simp [hflip]
+  exact hk rfl rfl
+
+example : Unit3 (⟨0, 0, 3/5, 4/5, ⟨1, -2, 3⟩⟩ : Iso3 ℚ) := by unfold Unit3; norm_num
+
+/-! ## Part 7 — `Contact::transform_by_mut`: each field by its own pose -/
+
+/-- **`Contact::transform_by_mut(pos1, pos2)` maps each field by its own pose**: `point1`, `normal1` by `pos1`,
+`point2`, `normal2` by `pos2`, `dist` unchanged. -/
+theorem contact_transformBy_fields (c : Contact3 K) (p1 p2 : Iso3 K) :
+    letI := fieldNum K sq
+    (c.transformBy p1 p2).point1 = p1.act c.point1 ∧ (c.transformBy p1 p2).point2 = p2.act c.point2 ∧
+    (c.transformBy p1 p2).normal1 = p1.rot c.normal1 ∧ (c.transformBy p1 p2).normal2 = p2.rot c.normal2 ∧
+    (c.transformBy p1 p2).dist = c.dist := ⟨rfl, rfl, rfl, rfl, rfl⟩
+
+/-- **World-frame coherence of `query::contact`** — why `normal2` and `point2` must go through `pos2`.  A local
+contact whose second normal is the first one seen from shape 2 (`normal2 = -pos12⁻¹·normal1`, what every
+`details::contact_*` produces) and whose second witness is `point1 + dist·normal1` seen from shape 2 becomes, after
+`transform_by_mut(pos1, pos2)`, a world contact with opposite normals and `point2 = point1 + dist·normal1`. -/
+theorem queryContact_world_coherent (c : Contact3 K) (p1 p2 : Iso3 K) (h1 : Unit3 p1) (h2 : Unit3 p2) :
+    letI := fieldNum K sq
+    c.normal2 = ((p1.invMul p2).invRot c.normal1).neg →
+    c.point2 = (p1.invMul p2).invAct (c.point1.add (c.normal1.smul c.dist)) →
+    (c.transformBy p1 p2).normal2 = (c.transformBy p1 p2).normal1.neg ∧
+    (c.transformBy p1 p2).point2 = (c.transformBy p1 p2).point1.add ((c.transformBy p1 p2).normal1.smul c.dist) := by
+  intro hn hp
+  have h12 := unit3_invMul sq p1 p2 h1 h2
+  constructor
+  · show @Iso3.rot K (fieldNum K sq) p2 c.normal2 = @V3.neg K (fieldNum K sq) (@Iso3.rot K (fieldNum K sq) p1 c.normal1)
+    rw [hn, invMul_invRot sq p1 p2 _ h1 h2]
+    have : ∀ v : V3 K, @Iso3.rot K (fieldNum K sq) p2 (@V3.neg K (fieldNum K sq) v)
+        = @V3.neg K (fieldNum K sq) (@Iso3.rot K (fieldNum K sq) p2 v) := fun v => rotQ_neg sq _ _ v
+    rw [this, rot_invRot sq p2 _ h2]
+  · show @Iso3.act K (fieldNum K sq) p2 c.point2 = @V3.add K (fieldNum K sq) (@Iso3.act K (fieldNum K sq) p1 c.point1)
+      (@V3.smul K (fieldNum K sq) (@Iso3.rot K (fieldNum K sq) p1 c.normal1) c.dist)
+    rw [hp]
+    -- p2 · (pos12⁻¹ · x) = p1 · x
+    have key : ∀ x : V3 K, @Iso3.act K (fieldNum K sq) p2
+        (@Iso3.invAct K (fieldNum K sq) (@Iso3.invMul K (fieldNum K sq) p1 p2) x) = @Iso3.act K (fieldNum K sq) p1 x := by
+      intro x
+      have a1 := iso3_invAct_act' sq (@Iso3.invMul K (fieldNum K sq) p1 p2) x h12
+      have a2 := (iso3_mul_act sq p1 (@Iso3.invMul K (fieldNum K sq) p1 p2)
+        (@Iso3.invAct K (fieldNum K sq) (@Iso3.invMul K (fieldNum K sq) p1 p2) x) h1 h12).1
+      have a3 : @Iso3.mul K (fieldNum K sq) p1 (@Iso3.invMul K (fieldNum K sq) p1 p2) = p2 := by
+        rw [iso3_invMul_eq_inverse_mul sq p1 p2, ← iso3_mul_assoc sq p1 _ p2 h1 (unit3_inverse sq p1 h1),
+          iso3_mul_inverse_self sq p1 h1, iso3_identity_mul]
+      rw [a3, a1] at a2
+      exact a2
+    rw [key]
+    have lin : ∀ (a v : V3 K) (s : K), @Iso3.act K (fieldNum K sq) p1 (@V3.add K (fieldNum K sq) a (@V3.smul K (fieldNum K sq) v s))
+        = @V3.add K (fieldNum K sq) (@Iso3.act K (fieldNum K sq) p1 a)
+          (@V3.smul K (fieldNum K sq) (@Iso3.rot K (fieldNum K sq) p1 v) s) := by
+      intro a v s
+      show @V3.add K (fieldNum K sq) (@Iso3.rot K (fieldNum K sq) p1 _) p1.t = _
+      rw [show @Iso3.rot K (fieldNum K sq) p1 (@V3.add K (fieldNum K sq) a (@V3.smul K (fieldNum K sq) v s))
+        = @V3.add K (fieldNum K sq) (@Iso3.rot K (fieldNum K sq) p1 a) (@Iso3.rot K (fieldNum K sq) p1 (@V3.smul K (fieldNum K sq) v s))
+        from rotQ_add sq _ _ _ _,
+        show @Iso3.rot K (fieldNum K sq) p1 (@V3.smul K (fieldNum K sq) v s)
+        = @V3.smul K (fieldNum K sq) (@Iso3.rot K (fieldNum K sq) p1 v) s from rotQ_smul sq _ _ _ _]
+      simp only [Iso3.act, V3.add, V3.mk.injEq]
+      refine ⟨?_, ?_, ?_⟩ <;> ring
+    exact lin _ _ _
+
+example : Unit3 (⟨0, 0, 3/5, 4/5, ⟨1, -2, 3⟩⟩ : Iso3 ℚ) ∧ Unit3 (⟨2/3, 1/3, 2/3, 0, ⟨0, 0, 0⟩⟩ : Iso3 ℚ) := by
+  unfold Unit3; norm_num
+/-! ## Part 8 — `NonlinearRigidMotion`: frame helpers used by the non-linear cast wrappers -/
+
+/-- **`set_start` keeps the world position of the rotation centre**: `new_start * new_local_center =
+start * local_center`, and leaves the velocities alone — for `append`, `prepend`, `append_translation`,
+`prepend_translation` alike (all four are `set_start` of a composed pose). -/
+theorem motion_setStart_center (m : Motion3 K) (s : Iso3 K) (h : Unit3 s) :
+    letI := fieldNum K sq
+    (m.setStart s).start.act (m.setStart s).localCenter = m.start.act m.localCenter ∧
+    (m.setStart s).start = s ∧ (m.setStart s).linvel = m.linvel ∧ (m.setStart s).angvel = m.angvel :=
+  ⟨iso3_invAct_act' sq s _ h, rfl, rfl, rfl⟩
+
+/-- `position_at_time` after `set_start(s)`: the same world motion `shift·e·shift⁻¹` about the ORIGINAL centre,
+applied to the new start pose. -/
+theorem motion_setStart_positionAt (m : Motion3 K) (s e : Iso3 K) (h : Unit3 s) :
+    letI := fieldNum K sq
+    (m.setStart s).positionAt e
+      = (transMulIso (m.start.act m.localCenter) e).mul (transMulIso (m.start.act m.localCenter).neg s) := by
+  have hc := (motion_setStart_center sq m s h).1
+  unfold Motion3.positionAt
+  simp only []
+  rw [hc]
+  rfl
+
+/-- `Translation * (a * b) = (Translation * a) * b` -/
+private theorem transMulIso_mul (c : V3 K) (a b : Iso3 K) :
+    letI := fieldNum K sq
+    transMulIso c (a.mul b) = (transMulIso c a).mul b := by
+  simp only [transMulIso, Iso3.mul, Iso3.rot, Iso3.qv, V3.add, Iso3.mk.injEq, V3.mk.injEq]
+  refine ⟨trivial, trivial, trivial, trivial, ?_, ?_, ?_⟩ <;> ring
+
+private theorem unit3_transMulIso (c : V3 K) (a : Iso3 K) (h : Unit3 a) :
+    letI := fieldNum K sq
+    Unit3 (transMulIso c a) := h
+
+/-- **`prepend(iso)` commutes with the motion**: the pose at any time of the prepended motion is the pose of the
+original motion composed with `iso` on the right — what `cast_shapes_nonlinear_composite_shape_shape` relies on when
+it casts a part with `motion1.prepend(part_pos1)`. -/
+theorem motion_prepend_positionAt (m : Motion3 K) (iso e : Iso3 K) (hs : Unit3 m.start) (hi : Unit3 iso) (he : Unit3 e) :
+    letI := fieldNum K sq
+    (m.prepend iso).positionAt e = (m.positionAt e).mul iso := by
+  unfold Motion3.prepend
+  rw [motion_setStart_positionAt sq m _ e (unit3_mul sq _ _ hs hi)]
+  unfold Motion3.positionAt
+  simp only []
+  rw [transMulIso_mul, iso3_mul_assoc sq _ _ iso (unit3_transMulIso sq _ e he) (unit3_transMulIso sq _ m.start hs)]
+
+example : Unit3 (⟨0, 0, 3/5, 4/5, ⟨1, -2, 3⟩⟩ : Iso3 ℚ) ∧ Unit3 (⟨2/3, 1/3, 2/3, 0, ⟨0, 0, 0⟩⟩ : Iso3 ℚ) ∧
+    Unit3 (⟨1/2, -1/2, 1/2, 1/2, ⟨0, 7, 1/3⟩⟩ : Iso3 ℚ) := by
+  unfold Unit3; norm_num
+
+/-- `prepend_translation(tra)` is `prepend` of the pure translation; `append_translation(tra)` is `append` of it -/
+theorem motion_translation_eq (m : Motion3 K) (tra : V3 K) :
+    letI := fieldNum K sq
+    m.prependTranslation tra = m.prepend ⟨0, 0, 0, 1, tra⟩ ∧ m.appendTranslation tra = m.append ⟨0, 0, 0, 1, tra⟩ := by
+  have e1 : @isoMulTrans K (fieldNum K sq) m.start tra = @Iso3.mul K (fieldNum K sq) m.start ⟨0, 0, 0, 1, tra⟩ := by
+    simp only [isoMulTrans, Iso3.mul, Iso3.qmul, mul_zero, mul_one, add_zero, sub_zero, zero_add]
+  have e2 : @transMulIso K (fieldNum K sq) tra m.start = @Iso3.mul K (fieldNum K sq) ⟨0, 0, 0, 1, tra⟩ m.start := by
+    obtain ⟨i, j, k, w, tx, ty, tz⟩ := m.start
+    simp only [transMulIso, Iso3.mul, Iso3.qmul, Iso3.rot, Iso3.qv, Iso3.rotQ, V3.add, V3.smul, V3.cross, fieldNum_two,
+      Iso3.mk.injEq, V3.mk.injEq]
+    refine ⟨by ring, by ring, by ring, by ring, by ring, by ring, by ring⟩
+  constructor
+  · unfold Motion3.prependTranslation Motion3.prepend; rw [e1]
+  · unfold Motion3.appendTranslation Motion3.append; rw [e2]
+
+/-- **`append(g)`** (a change of the world-side pose): the world motion `shift·e·shift⁻¹` is still taken about the
+original centre and is applied to `g·start`. -/
+theorem motion_append_positionAt (m : Motion3 K) (g e : Iso3 K) (hs : Unit3 m.start) (hg : Unit3 g) :
+    letI := fieldNum K sq
+    (m.append g).positionAt e
+      = (transMulIso (m.start.act m.localCenter) e).mul (transMulIso (m.start.act m.localCenter).neg (g.mul m.start)) :=
+  motion_setStart_positionAt sq m _ e (unit3_mul sq _ _ hg hs)
+
+example : Unit3 (⟨0, 0, 3/5, 4/5, ⟨1, -2, 3⟩⟩ : Iso3 ℚ) ∧ Unit3 (⟨2/3, 1/3, 2/3, 0, ⟨0, 0, 0⟩⟩ : Iso3 ℚ) := by
+  unfold Unit3; norm_num
+
+/-- **Relative pose of two motions, swapped**: at any time the pose of body 1 in the frame of body 2 is the inverse
+of the pose of body 2 in the frame of body 1 (what `cast_shapes_nonlinear` sees when the bodies are exchanged). -/
+theorem motion_relative_swap (m1 m2 : Motion3 K) (e1 e2 : Iso3 K)
+    (h1 : Unit3 (@Motion3.positionAt K (fieldNum K sq) m1 e1)) (h2 : Unit3 (@Motion3.positionAt K (fieldNum K sq) m2 e2)) :
+    letI := fieldNum K sq
+    (m2.positionAt e2).invMul (m1.positionAt e1) = ((m1.positionAt e1).invMul (m2.positionAt e2)).inverse :=
+  iso3_invMul_swap sq _ _ h1 h2
+
+
+/-! ## Part 9 — the world-frame meaning of `query::intersection_test` on two boxes -/
+
+/-- `pos1⁻¹·pos2` acts as `pos2` followed by `pos1⁻¹` (2-D) -/
+private theorem iso2_invMul_act (p1 p2 : Iso2 K) (y : V2 K) (h1 : Unit2 p1) :
+    letI := fieldNum K sq
+    (p1.invMul p2).act y = p1.invAct (p2.act y) := by
+  obtain ⟨c, s, ax, ay⟩ := p1; obtain ⟨c', s', bx, by'⟩ := p2; obtain ⟨x, y⟩ := y
+  simp only [Unit2, Iso2.invMul, Iso2.act, Iso2.invAct, Iso2.invRot, Iso2.rot, V2.add, V2.sub, V2.mk.injEq] at h1 ⊢
+  constructor <;> ring
+
+open Model.CC in
+/-- **World-frame specification of `query::intersection_test` on two rectangles** (dim2): the free function answers
+`true` iff some world point lies in both posed rectangles.  The right-hand side is manifestly symmetric in the two
+shapes and invariant under a common isometry of both poses — the semantic reason for the swap and frame theorems. -/
+theorem queryIntersectionTest2_iff_world (he1 he2 : V2 K) (p1 p2 : Iso2 K) (h1 : Unit2 p1) (h2 : Unit2 p2)
+    (h1x : 0 ≤ he1.x) (h1y : 0 ≤ he1.y) (h2x : 0 ≤ he2.x) (h2y : 0 ≤ he2.y) :
+    letI := fieldNum K sq
+    queryScalar2 (fun m => intersectionTestCuboidCuboid2 m he1 he2) p1 p2 = true ↔
+      ∃ w : V2 K, Cuboid2.Mem ⟨he1⟩ (p1.invAct w) ∧ Cuboid2.Mem ⟨he2⟩ (p2.invAct w) := by
+  have hu : Unit2 (@Iso2.invMul K (fieldNum K sq) p1 p2) := (iso2_inverse_inverse sq p1 p2 h1 h2).2.2.2
+  show @intersectionTestCuboidCuboid2 K (fieldNum K sq) (@Iso2.invMul K (fieldNum K sq) p1 p2) he1 he2 = true ↔ _
+  rw [intersectionTestCuboidCuboid2_true_iff sq _ he1 he2 hu h1x h1y h2x h2y]
+  unfold RectsMeet
+  constructor
+  · rintro ⟨y, hy, hx⟩
+    refine ⟨@Iso2.act K (fieldNum K sq) p2 y, ?_, ?_⟩
+    · rw [← iso2_invMul_act sq p1 p2 y h1]; exact hx
+    · rw [(iso2_inverse_act sq p2 y h2).2.2.1]; exact hy
+  · rintro ⟨w, hw1, hw2⟩
+    refine ⟨@Iso2.invAct K (fieldNum K sq) p2 w, hw2, ?_⟩
+    rw [iso2_invMul_act sq p1 p2 _ h1, (iso2_inverse_act sq p2 w h2).2.2.2]; exact hw1
+
+example : Unit2 (⟨3/5, 4/5, ⟨1, -2⟩⟩ : Iso2 ℚ) ∧ Unit2 (⟨0, 1, ⟨5, 0⟩⟩ : Iso2 ℚ) := by unfold Unit2; norm_num
+
+/-- `pos1⁻¹·pos2` acts as `pos2` followed by `pos1⁻¹` (3-D) -/
+private theorem iso3_invMul_act (p1 p2 : Iso3 K) (y : V3 K) (h1 : Unit3 p1) (h2 : Unit3 p2) :
+    letI := fieldNum K sq
+    (p1.invMul p2).act y = p1.invAct (p2.act y) := by
+  rw [iso3_invMul_eq_inverse_mul, (iso3_mul_act sq _ p2 y (unit3_inverse sq p1 h1) h2).1, iso3_invAct_eq_inverse_act]
+
+open Model.CC in
+/-- **World-frame specification of `query::intersection_test` on two cuboids** (dim3), under the hypotheses of
+`intersectionTestCuboidCuboid_true_iff` for `pos12 = pos1⁻¹·pos2`: the free function answers `true` iff some world
+point lies in both posed cuboids. -/
+theorem queryIntersectionTest_cuboids_iff_world (he1 he2 : V3 K) (p1 p2 : Iso3 K) (h1 : Unit3 p1) (h2 : Unit3 p2)
+    (hs : LawfulSqrt sq) (hh1 : ∀ k, 0 ≤ comp he1 k) (hh2 : ∀ l, 0 ≤ comp he2 l)
+    (hgen : ∀ a ∈ @satEdgeAxes K (fieldNum K sq) (@Iso3.invMul K (fieldNum K sq) p1 p2),
+      @V3.dot K (fieldNum K sq) a a = 0 ∨ @realEps K (fieldNum K sq) < @V3.norm K (fieldNum K sq) a) :
+    letI := fieldNum K sq
+    queryIntersectionTest (fun m => intersectionTestCuboidCuboid m he1 he2) p1 p2 = true ↔
+      ∃ w : V3 K, Cuboid3.Mem ⟨he1⟩ (p1.invAct w) ∧ Cuboid3.Mem ⟨he2⟩ (p2.invAct w) := by
+  have hu := unit3_invMul sq p1 p2 h1 h2
+  show @intersectionTestCuboidCuboid K (fieldNum K sq) (@Iso3.invMul K (fieldNum K sq) p1 p2) he1 he2 = true ↔ _
+  rw [intersectionTestCuboidCuboid_true_iff sq _ he1 he2 hu hs hh1 hh2 hgen]
+  unfold CuboidsMeet
+  constructor
+  · rintro ⟨y, hy, hx⟩
+    refine ⟨@Iso3.act K (fieldNum K sq) p2 y, ?_, ?_⟩
+    · rw [← iso3_invMul_act sq p1 p2 y h1 h2]; exact hx
+    · rw [(iso3_invAct_act sq p2 y h2).1]; exact hy
+  · rintro ⟨w, hw1, hw2⟩
+    refine ⟨@Iso3.invAct K (fieldNum K sq) p2 w, hw2, ?_⟩
+    rw [iso3_invMul_act sq p1 p2 _ h1 h2, (iso3_invAct_act sq p2 w h2).2]; exact hw1
+
+example : Unit3 (⟨0, 0, 0, 1, ⟨1, -2, 3⟩⟩ : Iso3 ℚ) ∧ Unit3 (⟨0, 0, 1, 0, ⟨0, 0, 0⟩⟩ : Iso3 ℚ) := by unfold Unit3; norm_num
 
 end C03
